@@ -366,6 +366,21 @@ pub fn run(tier: Tier) -> i32 {
                 let mut p = prog.clone();
                 p.push(Sym::E);
                 let e = enc::encode(lc, lp, pb, u64::MAX, &p);
+                // the first call ends with the marker but fails afterwards (the sink refuses the final flush, or its first
+                // write): whatever the decoder remembers about that marker must not excuse the next input either
+                for k in [1_000_000usize, 0] {
+                    let ops = vec![RawOp::DecFail(Hex(e.payload.clone()), k), RawOp::Dec(Hex(vec![0u8; 5]))];
+                    let case = Case::RawLzma { lc, lp, pb, dict: 1 << 16, size: None, memlimit: None, ops };
+                    let o = run_case(&case);
+                    n += 1;
+                    ctx.eval(1);
+                    ctx.nontriv(1);
+                    let no_panic = o.ops.iter().all(|r| !r.v.is_panic());
+                    let last_err = o.ops.last().map_or(false, |r| r.v.is_err());
+                    if !(no_panic && last_err) {
+                        ctx.violation(&case, &format!("raw decoder without a size: program #{} + marker into a sink whose {} fails; then an input of just the five coder start bytes (no marker) => Err", pi, if k == 0 { "first write" } else { "flush" }), &o, None);
+                    }
+                }
                 for with_reset in [false, true] {
                     let mut ops = vec![RawOp::Dec(Hex(e.payload.clone()))];
                     if with_reset {
